@@ -1,4 +1,5 @@
 import RreModel.C02.Lemmas
+import RreModel.C02.ApiLemmas
 /-
 C02 — property theorems (only). "Firing order and rule attributes are honoured on every run."
 All statements quantify over every rule set, every engine state / every history of API calls from the
@@ -155,6 +156,37 @@ theorem lock_on_active_once (maxc : Nat) (ops : List Op) (pre mid post : List HE
   obtain ⟨R1, R2, h2⟩ := scan_segment hs
   exact (scan_count_lock g h2 hr n).2
 
+/-! ## the wrapper calls of `RustRuleEngine` (RreModel/C02/Api.lean) -/
+
+/-- **set_debug_transparent.** `set_debug_mode` (and enabling / disabling analytics) changes nothing the engine's control reads (in particular not the bound
+`max_cycles` the later `execute` calls run with: `maxc` is the same parameter before and after), and the plain `execute` and
+the `knowledge_base_mut()` path are their twins by definition. -/
+theorem set_debug_transparent (maxc now : Nat) (st : St) (b : Bool) (cs : List Call) :
+    callStep maxc now st (.setDebug b) = (st, .res .unit) ∧
+    callStep maxc now st (.setAnalytics b) = (st, .res .unit) ∧
+    (callsRun maxc now st (.setDebug b :: cs)).1 = (callsRun maxc now st cs).1 ∧
+    (callsRun maxc now st (.setDebug b :: cs)).2 = .res .unit :: (callsRun maxc now st cs).2 ∧
+    callStep maxc now st .execNow = callStep maxc now st (.op (.exec now)) ∧
+    (∀ o, callStep maxc now st (.viaMut o) = callStep maxc now st (.op o)) :=
+  ⟨rfl, rfl, rfl, rfl, rfl, fun _ => rfl⟩
+
+/-- **workflow_step_is_focus_then_execute.** `execute_workflow_step(g)` is the two-call history `set_agenda_focus(g)`,
+`execute`: same final state, and its result is that `execute`'s result (the queue drain of `process_workflow_actions`
+finds the queue empty). -/
+theorem workflow_step_is_focus_then_execute (maxc now : Nat) (st : St) (g : Nat) :
+    run maxc st [.focus g, .exec now] = ((wfStep maxc now st g).1, [.unit, .exec (wfStep maxc now st g).2]) :=
+  run_stepOps maxc now st g
+
+/-- **calls_are_history.** Every history of public calls (primitive operations, `execute`, `set_debug_mode`,
+`knowledge_base_mut()` edits, `knowledge_base().clear()`, `execute_workflow_step`, `execute_workflow`) drives the engine
+through exactly the states of a history of primitive operations (`callsOps`), so every statement about all histories of
+primitive operations holds for it — in particular the reference scan accepts its event history: no no-loop rule fires
+twice without a reset, no lock-on-active rule twice without an activation of its group. -/
+theorem calls_are_history (maxc now : Nat) (cs : List Call) :
+    (callsRun maxc now init cs).1 = (run maxc init (callsOps maxc now init cs)).1 ∧
+    Ref.accepts {} (trace maxc init (callsOps maxc now init cs)) = true :=
+  ⟨callsRun_state maxc now init cs, history_accepted maxc _⟩
+
 /-! ## activation groups -/
 
 /-- **activation_group_one_per_pass.** In every pass of every `execute`, at most one rule of each
@@ -230,6 +262,13 @@ of G lets it fire once more -/
 example : trace 3 init exOps = [.focus 1, .fire rGo, .fire rL, .focus 1, .fire rL] := by decide +kernel
 example : ((run 3 init exOps).2.map fun | .exec o => (o.cycles, o.evaluated, o.fired) | _ => (0, 0, 0)) =
     [(0,0,0), (0,0,0), (0,0,0), (2,2,2), (1,0,0), (0,0,0), (2,1,1)] := by decide +kernel
+
+/-- re-focusing the group that already has the focus is a new activation: `L` fires again; `set_debug_mode` in between is
+not one; a workflow over `[1, 1]` makes two steps (the second fires `L` again) -/
+example : ((callsRun 3 50 init [.op (.setFact 0 0), .op (.add rL), .op (.focus 1), .execNow, .setDebug true, .execNow,
+      .op (.focus 1), .execNow, .wfStep 1, .workflow [1, 1, 1]]).2.map fun
+        | .res (.exec o) => [o.fired] | .workflow outs _ => outs.map (·.fired) | _ => []) =
+    [[], [], [], [1], [], [0], [], [1], [1], [1, 1, 1]] := by decide +kernel
 
 /-- activation group 0: `a1` stands first but its condition is false, `a2` fires, `a3` (true condition)
 is then blocked; all three have salience 7 and fire in insertion order after the `i32::MAX` rule -/
